@@ -34,7 +34,12 @@ class TyTable:
         self.ids = {}
 
     def id(self, hugr_ty):
-        return self.ids.setdefault(repr(hugr_ty), len(self.ids))
+        # canonical form: the serialised type (repr distinguishes BorrowArray(...) from the equal ExtType(...))
+        try:
+            key = hugr_ty._to_serial_root().model_dump_json()
+        except Exception:  # noqa: BLE001
+            key = repr(hugr_ty)
+        return self.ids.setdefault(key, len(self.ids))
 
 
 _tt = TyTable()
